@@ -302,9 +302,15 @@ func parseContractFile(path string) (*PkgContracts, error) {
 				cur.LoopDec[k] = cl
 				last = cl
 			case strings.HasPrefix(r2, "modifies"):
-				cl := &Clause{Kind: "modifies", Text: strings.TrimSpace(r2[len("modifies"):]), Line: ln, File: path, Loop: k}
+				// loop K: modifies X[*]  -- the loop writes memory of X's element type only inside the window of the
+				// slice X (evaluated when the loop is entered); checked at every back edge, assumed at the loop head
+				txt := strings.TrimSpace(r2[len("modifies"):])
+				if !strings.HasSuffix(txt, "[*]") {
+					return nil, fmt.Errorf("%s:%d: loop modifies needs the form  X[*]", path, ln)
+				}
+				cl := &Clause{Kind: "loopmod", Text: strings.TrimSuffix(txt, "[*]"), Line: ln, File: path, Loop: k}
 				cur.LoopMod[k] = append(cur.LoopMod[k], cl)
-				last = cl
+				last = nil
 			case strings.HasPrefix(r2, "hint"):
 				cl := &Clause{Kind: "invariant", Text: strings.TrimSpace(r2[len("hint"):]), Line: ln, File: path, Loop: k, Hint: true}
 				if cur.LoopHint == nil {
@@ -395,6 +401,9 @@ func (fc *FuncContract) allClauses() []*Clause {
 	out = append(out, fc.Ensures...)
 	out = append(out, fc.PanicsWhen...)
 	for _, cs := range fc.LoopInv {
+		out = append(out, cs...)
+	}
+	for _, cs := range fc.LoopMod {
 		out = append(out, cs...)
 	}
 	for _, c := range fc.LoopDec {
